@@ -18,6 +18,7 @@ import (
 	"github.com/gordian-engine/gordian/tm/tmconsensus"
 	"github.com/gordian-engine/gordian/tm/tmdriver"
 	"github.com/gordian-engine/gordian/tm/tmengine"
+	"github.com/gordian-engine/gordian/tm/tmengine/internal/tmstate"
 	"github.com/gordian-engine/gordian/tm/tmengine/tmelink"
 	"github.com/gordian-engine/gordian/tm/tmstore"
 	"github.com/gordian-engine/gordian/tm/tmstore/tmmemstore"
@@ -80,6 +81,15 @@ type node struct {
 	cancel context.CancelFunc
 	e      *tmengine.Engine
 	bare   *bareEnv // set: the state machine alone, the harness plays the mirror (smbare.go)
+
+	// Controlled main select of the engine's state machine (single-engine harness only; the hooks are package
+	// globals): the kernel is held at the entry of its main select and released pass by pass by drain, so that it
+	// consumes simultaneously ready inputs in a fixed (natural) order instead of an order Go picks at random.
+	gateSM     bool
+	gate       chan struct{}
+	atGate     bool
+	lastPicked int
+	smPasses   int
 	startErr string
 
 	initCh chan tmdriver.InitChainRequest
@@ -437,6 +447,35 @@ func (n *node) start() {
 	}
 
 	w := n.w
+	if n.gateSM && tmstate.VerifSelectCountStatemachine > 0 {
+		n.gate = make(chan struct{})
+		n.atGate = false
+		ctx := n.ctx
+		tmstate.VerifSetSelectHooks(func(name string, cases int) []int {
+			if !strings.HasPrefix(name, "handleLiveEvent") {
+				return nil
+			}
+			n.atGate = true
+			select {
+			case <-n.gate:
+			case <-ctx.Done():
+			}
+			n.atGate = false
+			order := make([]int, cases)
+			for i := range order {
+				order[i] = i
+			}
+			return order
+		}, func(name string, i int) {
+			if strings.HasPrefix(name, "handleLiveEvent") {
+				n.lastPicked = i
+			}
+		}, func(name string) bool {
+			return strings.HasPrefix(name, "handleLiveEvent") && ctx.Err() == nil
+		})
+	} else {
+		n.gateSM = false
+	}
 	wd, wctx := gwatchdog.NewNopWatchdog(n.ctx, discardLog)
 	signer := hSigner{n: n, inner: tmconsensus.PassthroughSigner{Signer: w.keys[n.keyIdx].Signer, SignatureScheme: w.ss}}
 	opts := []tmengine.Opt{
@@ -509,6 +548,38 @@ func (n *node) stop() {
 		n.e.Wait()
 	}
 	n.e = nil
+	if n.gate != nil {
+		tmstate.VerifSetSelectHooks(nil, nil, nil)
+		n.gate = nil
+	}
+}
+
+// pumpSM releases the gated state machine kernel pass by pass until a pass finds no input ready or the kernel
+// waits elsewhere; it reports whether any pass consumed an input.
+func (n *node) pumpSM() bool {
+	if n.gate == nil {
+		return false
+	}
+	progressed := false
+	for i := 0; i < 64; i++ {
+		synctest.Wait()
+		if !n.atGate {
+			return progressed
+		}
+		n.lastPicked = -1
+		select {
+		case n.gate <- struct{}{}:
+		default:
+			return progressed
+		}
+		n.smPasses++
+		synctest.Wait()
+		if n.lastPicked < 0 {
+			return progressed
+		}
+		progressed = true
+	}
+	return progressed
 }
 
 func (n *node) restart() string {
@@ -558,7 +629,7 @@ func (n *node) call(name string, f func(ctx context.Context) string) string {
 // drain reads gossip output and collects finalize requests.
 func (n *node) drain() {
 	for i := 0; i < 64; i++ {
-		any := false
+		any := n.pumpSM()
 		if n.gsCh != nil {
 			select {
 			case u := <-n.gsCh:
